@@ -329,7 +329,156 @@ fn check_pair(a: &Spec, b: &Spec) -> Result<(), String> {
     }
 }
 
+/// Arrays that share sub-arrays (acyclic): `plan[k]` lists the elements of array k, an element is a scalar text or an earlier
+/// array. The array is read back element by element (the very same objects) and as text: a list shows every element in
+/// full, also one that occurs more than once.
+pub fn shared_arrays_check(plan: &[Vec<SharedItem>]) -> Result<(), String> {
+    let r = catch_unwind(AssertUnwindSafe(|| {
+        let mut gc = GC::new();
+        let mut built: Vec<Object> = Vec::new();
+        let mut texts: Vec<String> = Vec::new();
+        let mut scalars: Vec<Object> = Vec::new();
+        for items in plan {
+            let mut objs = Vec::new();
+            let mut parts = Vec::new();
+            for it in items {
+                match it {
+                    SharedItem::Int(i) => {
+                        objs.push(Object::int(*i as isize));
+                        parts.push(i.to_string());
+                    }
+                    SharedItem::Bool(b) => {
+                        objs.push(Object::bool(*b));
+                        parts.push(if *b { "ja".to_string() } else { "nee".to_string() });
+                    }
+                    SharedItem::Eighths(n) => {
+                        let f = *n as f64 / 8.0;
+                        let o = Object::float(f, &mut gc);
+                        scalars.push(o);
+                        objs.push(o);
+                        parts.push(f.to_string());
+                    }
+                    SharedItem::Text(t) => {
+                        let o = Object::string(t.as_str(), &mut gc);
+                        scalars.push(o);
+                        objs.push(o);
+                        parts.push(t.clone());
+                    }
+                    SharedItem::Earlier(k) => {
+                        let k = *k % built.len().max(1);
+                        if built.is_empty() {
+                            objs.push(Object::int(0));
+                            parts.push("0".into());
+                        } else {
+                            objs.push(built[k]);
+                            parts.push(texts[k].clone());
+                        }
+                    }
+                }
+            }
+            let want_ptrs: Vec<Object> = objs.clone();
+            let o = Object::array(objs, &mut gc);
+            let text = format!("[{}]", parts.join(", "));
+            // element by element: the same objects, in order
+            let got = o.as_vec();
+            if got.len() != want_ptrs.len() || got.iter().zip(want_ptrs.iter()).any(|(a, b)| crate::engine::obj_addr(*a) != crate::engine::obj_addr(*b) && a.is_heap_allocated()) {
+                return Err(format!("array {} does not hold the objects it was built from", built.len()));
+            }
+            let shown = format!("{o}");
+            if shown != text {
+                return Err(format!("array {} reads as `{shown}`, written as `{text}`", built.len()));
+            }
+            built.push(o);
+            texts.push(text);
+        }
+        // every block once
+        for o in built.iter().chain(scalars.iter()) {
+            gc.untrace(*o);
+        }
+        for o in built.iter().chain(scalars.iter()) {
+            o.free();
+        }
+        Ok(())
+    }));
+    match r {
+        Ok(x) => x,
+        Err(p) => Err(format!("panic: {}", crate::engine::classify_unwind(p).render())),
+    }
+}
+
+#[derive(Clone, Debug)]
+pub enum SharedItem {
+    Int(i64),
+    Bool(bool),
+    Eighths(i64),
+    Text(String),
+    Earlier(usize),
+}
+
+fn gen_shared_plan(t: &mut Tape) -> Vec<Vec<SharedItem>> {
+    let arrays = 1 + t.below(6);
+    (0..arrays)
+        .map(|k| {
+            let n = t.below(5);
+            (0..n)
+                .map(|_| match t.below(8) {
+                    0 => SharedItem::Int(t.range(-99, 99)),
+                    1 => SharedItem::Bool(t.maybe(128)),
+                    2 => SharedItem::Eighths(t.range(-80, 80)),
+                    3 => SharedItem::Text(gen_string(t)),
+                    _ if k > 0 => SharedItem::Earlier(t.below(k)),
+                    _ => SharedItem::Int(t.range(0, 9)),
+                })
+                .collect()
+        })
+        .collect()
+}
+
+fn plan_to_json(plan: &[Vec<SharedItem>]) -> serde_json::Value {
+    json!(plan
+        .iter()
+        .map(|a| a
+            .iter()
+            .map(|i| match i {
+                SharedItem::Int(v) => json!({"int": v}),
+                SharedItem::Bool(b) => json!({"bool": b}),
+                SharedItem::Eighths(n) => json!({"eighths": n}),
+                SharedItem::Text(s) => json!({"text": s}),
+                SharedItem::Earlier(k) => json!({"earlier": k}),
+            })
+            .collect::<Vec<_>>())
+        .collect::<Vec<_>>())
+}
+
+fn plan_from_json(v: &serde_json::Value) -> Option<Vec<Vec<SharedItem>>> {
+    v.as_array()?
+        .iter()
+        .map(|a| {
+            a.as_array()?
+                .iter()
+                .map(|i| {
+                    if let Some(x) = i.get("int") {
+                        Some(SharedItem::Int(x.as_i64()?))
+                    } else if let Some(x) = i.get("bool") {
+                        Some(SharedItem::Bool(x.as_bool()?))
+                    } else if let Some(x) = i.get("eighths") {
+                        Some(SharedItem::Eighths(x.as_i64()?))
+                    } else if let Some(x) = i.get("text") {
+                        Some(SharedItem::Text(x.as_str()?.to_string()))
+                    } else {
+                        Some(SharedItem::Earlier(i.get("earlier")?.as_u64()? as usize))
+                    }
+                })
+                .collect::<Option<Vec<_>>>()
+        })
+        .collect()
+}
+
 pub fn replay(case: &serde_json::Value) -> Option<Violation> {
+    if let Some(p) = case.get("shared_arrays") {
+        let plan = plan_from_json(p)?;
+        return shared_arrays_check(&plan).err().map(|m| viol("shared-arrays", "array-readback", case.clone(), "an array reads back as written, element by element and as text", m));
+    }
     if let Some(v) = case.get("checked_int").and_then(|x| x.as_i64()) {
         let in_range = v >= lattice::MIN_INT && v <= lattice::MAX_INT;
         let got = catch_unwind(AssertUnwindSafe(|| Object::checked_int(v as isize).map(|o| (o.tag() == Type::Int, o.as_int() as i64))));
@@ -358,7 +507,7 @@ pub fn run(ctx: &Ctx) -> Report {
         "C15",
         "exploration",
         "values built through the public Object constructors: complete lattice of ints, complete (offset,count) boundary grid, \
-         tape-generated floats/strings/nested arrays; pairwise == over the complete cross product of a 200-value sample. \
+         tape-generated floats/strings/nested arrays; arrays that share sub-arrays, read back element by element (same objects) and as text (a list shows every element in full, also one that occurs twice); pairwise == over the complete cross product of a 200-value sample. \
          non-trivial = negative or >=2^31 int, non-zero function descriptor, any float, non-ASCII or long string, array holding heap values; distinct by rendering",
     );
     rep.assumptions.push("arrays are only compared with non-arrays (array == array is unimplemented upstream, U11)".into());
@@ -450,6 +599,29 @@ pub fn run(ctx: &Ctx) -> Report {
             r.violation(viol("roundtrip", "readback", json!({"value": spec_to_json(&s)}), "value read back exactly as written", msg));
         }
     });
+
+    // (3b) arrays that share sub-arrays
+    let shared_cases = ctx.pick(60_000u32, 1_000_000u32) / ctx.shards as u32;
+    let mut rep = par_shards(ctx.shards, rep, move |shard, r| {
+        let fail = run_tapes(seed.wrapping_mul(86_028_121) + shard as u64, shared_cases, 96, |tape, shrinking| {
+            let mut t = Tape::new(tape);
+            let plan = gen_shared_plan(&mut t);
+            if !shrinking {
+                r.eval();
+                r.count("shared-arrays");
+                if plan.iter().any(|a| a.iter().filter(|i| matches!(i, SharedItem::Earlier(_))).count() >= 2) {
+                    r.nontrivial(&format!("{plan:?}"));
+                }
+            }
+            shared_arrays_check(&plan)
+        });
+        if let Some((tape, msg)) = fail {
+            let mut t = Tape::new(&tape);
+            let plan = gen_shared_plan(&mut t);
+            r.violation(viol("shared-arrays", "array-readback", json!({"shared_arrays": plan_to_json(&plan)}), "an array reads back as written, element by element and as text", msg));
+        }
+    });
+    rep.sample(json!({"shared_arrays": "r = [1, 2.5, drie]; [r, r] reads as [[1, 2.5, drie], [1, 2.5, drie]]"}));
 
     // (4) pairwise over a 200-value sample (complete cross product)
     let mut sample: Vec<Spec> = vec![Spec::Null, Spec::Bool(true), Spec::Bool(false)];
